@@ -211,7 +211,7 @@ func effectSites(fn *ssa.Function, pred func(ssa.Instruction) bool, depth int) [
 // checkTestAndSetAtomic: in fn, a presence test (comma-ok lookup) on the map held in field and an insert into that
 // map are one critical section: on no path from the test to the insert is a lock of the owner released. Returns the
 // number of test/insert pairs examined.
-func checkTestAndSetAtomic(p *core.Prog, r *core.Report, la *core.LockAnalysis, rule string, fn *ssa.Function, field core.FieldID, what string) int {
+func checkTestAndSetAtomic(p *core.Prog, r *core.Report, la *core.LockAnalysis, rule string, fn *ssa.Function, field core.FieldID, what string, requireTest bool) int {
 	var tests []*ssa.Lookup
 	var inserts []*ssa.MapUpdate
 	core.EachInstr(fn, func(in ssa.Instruction) {
@@ -228,6 +228,16 @@ func checkTestAndSetAtomic(p *core.Prog, r *core.Report, la *core.LockAnalysis, 
 	})
 	n := 0
 	for i, ins := range inserts {
+		tested := false
+		for _, t := range tests {
+			if reachableAfter(t, ins) {
+				tested = true
+			}
+		}
+		if !tested && requireTest {
+			n++
+			r.Violate(rule, fmt.Sprintf("%s|insert#%d|test-and-insert-atomic", core.FnKey(fn), i+1), p.Pos(ins.Pos()), "the insert is not preceded by a presence test on the map in this function (a test made through another function releases the lock before the insert): "+what)
+		}
 		for _, t := range tests {
 			if !reachableAfter(t, ins) {
 				continue
